@@ -632,20 +632,27 @@ func rulePairCacheCount(c *Ctx) {
 	// *EventSubscription (alone or with an error) and counts a use on some path (a split-up getSubscription)
 	returnsES := func(f *ssa.Function) (errIdx int, ok bool) {
 		res := f.Signature.Results()
-		if res.Len() == 0 || res.Len() > 2 || esType == nil {
+		if res.Len() == 0 || res.Len() > 4 || esType == nil {
 			return -1, false
 		}
 		pt, isPtr := res.At(0).Type().(*types.Pointer)
 		if !isPtr || !types.Identical(pt.Elem(), esType) {
 			return -1, false
 		}
-		if res.Len() == 2 {
-			if !isErrorType(res.At(1).Type()) {
-				return -1, false
+		// further results (a "was cached" flag, ...) do not matter; the error result is the one of type error
+		ei := -1
+		for i := 1; i < res.Len(); i++ {
+			if isErrorType(res.At(i).Type()) {
+				if ei >= 0 {
+					return -1, false
+				}
+				ei = i
 			}
-			return 1, true
 		}
-		return -1, true
+		if res.Len() == 2 && ei < 0 {
+			return -1, false
+		}
+		return ei, true
 	}
 	acquirers := map[*ssa.Function]int{} // -> index of the error result, or -1
 	for _, f := range p.Repo {
@@ -858,7 +865,7 @@ func rulePairCacheCount(c *Ctx) {
 		sp.Branch = func(t *Tracer, fr *Frame, i *ssa.If, dir bool) []Ev {
 			if x, nonNil, ok := nilTest(i, dir); ok && nonNil {
 				r := t.Resolve(fr, x)
-				if e, isE := r.V.(*ssa.Extract); isE && acq != nil && e.Tuple == ssa.Value(acq) && e.Index == 1 {
+				if e, isE := r.V.(*ssa.Extract); isE && acq != nil && e.Tuple == ssa.Value(acq) && acq.Call.StaticCallee() != nil && e.Index == acquirers[acq.Call.StaticCallee()] {
 					return []Ev{{Kind: "acqfail"}}
 				}
 			}
@@ -917,7 +924,7 @@ func rulePairMembership(c *Ctx) {
 		esType := p.Named("rescache.EventSubscription")
 		isAcq := func(f *ssa.Function) bool {
 			res := f.Signature.Results()
-			if f.Parent() != nil || res.Len() == 0 || res.Len() > 2 || esType == nil || f.Object() == nil || f.Object().Exported() {
+			if f.Parent() != nil || res.Len() == 0 || res.Len() > 4 || esType == nil || f.Object() == nil || f.Object().Exported() {
 				return false
 			}
 			pt, isPtr := res.At(0).Type().(*types.Pointer)
@@ -1395,7 +1402,6 @@ func strictOnce(p *Prog, fn *ssa.Function, idx int, memo map[string]string, dept
 	return why
 }
 
-
 // replyOKBeforeFail: the request was answered with success on a path that had
 // met no failure (denied access, load error) up to that answer.
 func replyOKBeforeFail(path []Ev) bool {
@@ -1409,7 +1415,6 @@ func replyOKBeforeFail(path []Ev) bool {
 	}
 	return false
 }
-
 
 // decrementsOn: does fn lower the direct / the indirect count of the
 // subscription it receives as parameter idx — itself, or in a function it
